@@ -186,6 +186,8 @@ package task
 //@ ghost var shFailed bool scratch
 //@ ghost var shErr error scratch
 //@ ghost var shExit bool scratch
+//@ ghost var curExit bool scratch
+//@ ghost var lastFailed bool scratch
 //@ ghost var nestFailed bool scratch
 //@ ghost var runCtx context.Context scratch
 //@ ghost var execErr error scratch
@@ -258,6 +260,11 @@ package task
 //@   site (*Executor).runCommand#1 ghost set cmdOK(t, $i) if result == nil
 //@   site IsExitStatus#2 ghost set cmdExitFail(t, $i) if result.1
 //@   site (*Executor).runDeferred#1 ghost set deferRegistered(t, $i)
+// a deferred command is a command of the task: it is only registered (and so can only ever start) once the
+// dependencies have finished successfully and the guards have passed
+//@   site (*Executor).runDeferred#1 requires
+//@        forall j {t.Deps[j]} :: 0 <= j && j < len(t.Deps) ==> depCallOK(t.Deps[j])                   [C01]
+//@   site (*Executor).runDeferred#1 requires platformOK(call) && requiredOK(call) && enumOK(call) && precondsOK(call)   [C13]
 //@   loop 2 invariant forall j {cmdSettled(t, j)} :: 0 <= j && j < $i && !t.Cmds[j].Defer ==> cmdSettled(t, j)   [C02]
 //@   loop 2 invariant forall j {cmdOK(t, j)} :: 0 <= j && j < $i && !t.Cmds[j].Defer ==>
 //@        cmdOK(t, j) || (t.IgnoreError && cmdExitFail(t, j))                                          [C03,C13,C07]
@@ -271,6 +278,18 @@ package task
 //@   site IsExitStatus#2 ghost sawExit := result.1 && !t.IgnoreError
 //@   site IsExitStatus#2 ghost sawCode := result.0
 //@   ensures result != nil && sawExit ==> deferredExitCode == sawCode                                 [C14]
+// ignore_error on the task covers EVERY exit status of its commands (1..255): after a command that ended with an
+// exit status the task never returns that failure - the loop goes on to the next command
+//@   init curExit := false
+//@   site (*Executor).runCommand#1 ghost curExit := false
+//@   site IsExitStatus#2 ghost curExit := result.1
+//@   ensures result != nil && curExit ==> !t.IgnoreError                                              [C03]
+// ... and conversely the task reports success right after a failed command only in that case: whoever called it
+// (and every caller waiting for a deduplicated execution of it) sees the failure
+//@   init lastFailed := false
+//@   site (*Executor).runCommand#1 ghost lastFailed := result != nil
+//@   loop 2 invariant lastFailed ==> t.IgnoreError && curExit                                         [C03,C06,C01]
+//@   ensures result == nil && lastFailed ==> t.IgnoreError && curExit                                 [C03,C06,C01]
 
 //@ func (*Executor).runCommand
 //@   modifies heap, fs_exists, fs_ver
@@ -293,7 +312,9 @@ package task
 //@   site result.2:(Output).WrapWriter#1 requires arg0 == shErr     -- the closer learns how the command ended         [C17]
 //@   site IsExitStatus#1 ghost shExit := result.1
 //@   ensures result == nil && shFailed ==> shExit && t.Cmds[i].IgnoreError                             [C03]
-//@   ensures nestFailed ==> result != nil                                                              [C03]
+// ... and ignore_error on the command covers every exit status (1..255) of that command
+//@   ensures shFailed && shExit && t.Cmds[i].IgnoreError ==> result == nil                             [C03]
+//@   ensures nestFailed ==> result != nil     -- whatever made the called task fail (a command, a guard, the call limit that ends a cycle) fails the caller   [C03,C07,C13]
 
 // A deferred entry runs with a context that is NOT derived from the (possibly cancelled) task context, sees
 // EXIT_CODE only when a command failed, and its own failure is swallowed (the function returns nothing).
@@ -497,6 +518,15 @@ package task
 //@ guarded_by Executor.executionHashes Executor.executionHashesMutex                                               [C18]
 //@ guarded_by Compiler.dynamicCache Compiler.muDynamicCache                                                        [C18]
 
+// ---- C09: Go map iteration (random order) is confined to functions that do not depend on the order ---------
+// getVariables: special variables, every name set once; compiledTask / taskfile.Dotenv: the entries of ONE dotenv
+// file (names are unique within it; between files the first wins, in list order); itemsFromFor: `for: var:` over a
+// map variable - the documented unordered iteration the property permits; deepcopy.Map: map to map;
+// env.GetFromVars: the environment list (a set); readDotEnv: TASK_X_ settings; collectKeys: sorted afterwards (its
+// contract); TaskfileGraph.Merge: the includes of each edge list are sorted before they are merged (its contract).
+// A map iteration added anywhere else (a decoder, a merge step, a new helper) fails here.
+//@ map_ranges : (*Compiler).getVariables (*Executor).compiledTask itemsFromFor deepcopy.Map env.GetFromVars experiments.readDotEnv fingerprint.collectKeys taskfile.Dotenv ast.(*TaskfileGraph).Merge   [C09]
+
 // ---- C11: no state survives from one task to the next except the declared run-time tables ----------------
 // Once set up, the Executor and the Compiler are written only through the listed fields (the table of run-once
 // executions, the watcher's directory set, the defaulted sorter; the cache of dynamic variables, which is keyed
@@ -544,6 +574,22 @@ package task
 //@   site append#4 requires arg1[0].Silent == dep.Silent                                                       [C01]
 //@   site append#5 requires arg1[0].Silent == dep.Silent                                                       [C01]
 //@   ensures result.1 == nil ==> fresh(result.0)                                                               [C11]
+// The attributes of the compiled task are those of its DEFINITION; what a call passes reaches it through the
+// variables only. (The key of run: when_changed is computed from the compiled task: an attribute taken from the
+// call - its silent flag, say - would make two calls with the same variables count as different.)
+//@   site store:Task.Silent#0 requires arg1 == origTask.Silent                                                [C06,C11,C03,C13]
+//@   site store:Task.Interactive#0 requires arg1 == origTask.Interactive                                      [C06,C11,C03,C13]
+//@   site store:Task.Internal#0 requires arg1 == origTask.Internal                                            [C06,C11,C03,C13]
+//@   site store:Task.IgnoreError#0 requires arg1 == origTask.IgnoreError                                      [C06,C11,C03,C13]
+//@   site store:Task.Watch#0 requires arg1 == origTask.Watch                                                  [C06,C11,C03,C13]
+//@   site store:Task.Namespace#0 requires arg1 == origTask.Namespace                                          [C06,C11,C03,C13]
+//@   site store:Task.Location#0 requires arg1 == origTask.Location                                            [C06,C11,C03,C13]
+//@   site store:Task.Requires#0 requires arg1 == origTask.Requires                                            [C06,C11,C03,C13]
+//@   site store:Task.Platforms#0 requires arg1 == origTask.Platforms                                          [C06,C11,C03,C13]
+//@   site store:Task.Set#0 requires arg1 == origTask.Set                                                      [C06,C11,C03,C13]
+//@   site store:Task.Shopt#0 requires arg1 == origTask.Shopt                                                  [C06,C11,C03,C13]
+//@   site store:Task.IncludeVars#0 requires arg1 == origTask.IncludeVars                                      [C06,C11,C03,C13]
+//@   site store:Task.IncludedTaskfileVars#0 requires arg1 == origTask.IncludedTaskfileVars                    [C06,C11,C03,C13]
 
 // Resolving the refs of a matrix must not write into the matrix of the task definition: it is shared by every
 // call of the task (and by concurrently compiling goroutines).
@@ -571,6 +617,9 @@ package task
 //@   site env.GetEnviron#1 ghost layer := 1
 //@   site (*Compiler).getSpecialVars#1 requires layer == 1                                                    [C10]
 //@   site (*Compiler).getSpecialVars#1 ghost layer := 2
+// getVariables itself writes the special variables and nothing else: every later layer goes through the range
+// function, so a special variable that a Taskfile, the command line or a call redefines stays redefined
+//@   site (*Vars).Set#0 requires layer == 2 && arg0 == result                                               [C10]
 //@   site (*Vars).All#1 requires layer == 2 && arg0 == c.TaskfileEnv                                          [C10,C02]
 //@   site (*Vars).All#1 ghost layer := 3
 //@   site (*Vars).All#2 requires layer == 3 && arg0 == c.TaskfileVars                                         [C10,C02]
